@@ -64,6 +64,20 @@ def special_sources():
     # equal code objects in different scopes of one line (CPython merges equal code objects only within one scope)
     add('equal-code-across-scopes', "def f():\n    return (lambda: (lambda: 0)), (lambda: 0)\n")
     add('equal-code-across-scopes-2', "d = {'lazy': lambda: (lambda: None), 'eager': lambda: None}\ne = [(lambda: (lambda: (lambda: 1))), (lambda: (lambda: 1)), (lambda: 1)]\n")
+    # a cell variable that no instruction references (its only use is in dead code / an assert under -O) next to a
+    # free variable that is used: the free variable's index depends on the number of cells (seeded change C01-r3)
+    add('dead-closure-cell', "def outer(a, b):\n    def inner(x, y):\n        if 0:\n            g = lambda: (x, y)\n        return a, b\n    return inner\n")
+    add('dead-closure-cell-assert', "def make(limit):\n    def validate(value, other):\n        assert (lambda: value)() is not None, (lambda: other)\n        return value < limit\n    return validate\n")
+    add('dead-closure-cell-debug', "def make(k):\n    def f(u, v):\n        if __debug__:\n            h = lambda: u\n        while 0:\n            w = lambda: v\n        return k, v\n    return f\n")
+    # a free variable no instruction references (dead reference, or only declared nonlocal) before one that is used:
+    # the closure is built by the parent for every free variable, in order (seeded change C05-r3)
+    add('unused-freevar', "def f():\n    a = 'first'; b = 'second'\n    def g():\n        if 0:\n            a\n        return b\n    return g()\n")
+    add('unused-freevar-nonlocal', "def f():\n    a = 0; b = 5\n    def g():\n        nonlocal a\n        return b\n    return g()\n")
+    add('unused-freevar-eval', "def f():\n    a = 42; b = 1\n    def g():\n        if 0:\n            a\n        return eval('a') + b\n    return g()\n")
+    # code objects that CPython considers equal (same bytecode, constants, names, first line) but whose line tables
+    # differ, in different scopes (3.7 compiles them as two objects; seeded changes C14-r3, C12-r3)
+    add('equal-code-different-lines', "fs = [lambda: (lambda: (a, b)), lambda p: (lambda: (a,\n    b))]\n")
+    add('equal-code-different-lines-2', "def o1():\n    return lambda: (lambda: [x, y])\ndef o2(q):\n    return lambda: (lambda: [x,\n\n y])\n")
     # ladders of nested ifs whose exits are consecutive one-instruction statements around the 255/256 operand
     # boundary: the jump-size fix point needs one more round per level (only normalized / hand-built data recompute it)
     for depth in (3, 4, 5):
